@@ -2,6 +2,7 @@
   Props/C09.lean — C09: tokens are only credited to admissible destinations.
 -/
 import Proofs.Ledger
+import Proofs.Gates
 namespace C09
 open Esdt
 
@@ -72,10 +73,26 @@ theorem multi_destination_rejections (env : Env) (c : Call) (ctx ctx' : Ctx) (ou
     ∃ dst, c.args[0]? = some dst ∧ dst.length = c.caller.length ∧ dst ≠ c.caller ∧ shardOf env.nshards dst ≠ metaShard :=
   (multiTransferSender_destination_ok env c ctx).elim h
 
--- FULL (remaining part, stated): the per-item statement for the destination side of MultiESDTNFTTransfer (fungible items
--- go through `verifyPayableIf` + `addToESDTBalance`, NFT items through `addNFTToDestination` — both specified above /
--- in Proofs/Exact.lean; the induction over the item loop is not yet a theorem) and "the credited account is the
--- destination" for NFT/multi (C05.bounded_footprint bounds the written accounts).  Decided today by the C09 oracle and by
--- correspondence in the `transfers` / `gates` profiles.
+/-- FULL (destination side of MultiESDTNFTTransfer, every token kind): a successful execution asked the payability oracle
+    about the destination — and got `yes` — whenever verification is required; the threshold is the bare multi transfer's
+    own argument count (3n+1) -/
+theorem multi_dest_credit_admissible (env : Env) (c : Call) (ctx ctx' : Ctx) (out : VMOutput) (hne : c.caller ≠ c.rcv)
+    (h : multiTransfer env c ctx = .ok (out, ctx')) :
+    ∃ a0, c.args[0]? = some a0 ∧ (MustVerify c (u64 (u64 (u64 (beNat a0) * 3) + 1)) → env.payable c.rcv = .yes) := by
+  obtain ⟨a0, h0, hp⟩ := (multiTransfer_dest_payable env c ctx hne).elim h
+  exact ⟨a0, h0, fun hm => hp ((mustVerify_spec c _).mpr hm)⟩
+
+/-- FULL (sender side of MultiESDTNFTTransfer with the destination on the executing shard) -/
+theorem multi_sameShard_credit_admissible (env : Env) (c : Call) (ctx ctx' : Ctx) (out : VMOutput)
+    (hs : present env.nshards env.self c.caller = true)
+    (hx : ∀ d, c.args[0]? = some d → env.self = shardOf env.nshards d)
+    (h : multiTransferSender env c ctx = .ok (out, ctx')) :
+    ∃ dst a1, c.args[0]? = some dst ∧ c.args[1]? = some a1 ∧
+      (MustVerify c (u64 (u64 (u64 (beNat a1) * 3) + 2)) → env.payable dst = .yes) := by
+  obtain ⟨dst, a1, h0, h1, hp⟩ := (multiTransferSender_sameShard_payable env c ctx hs hx).elim h
+  exact ⟨dst, a1, h0, h1, fun hm => hp ((mustVerify_spec c _).mpr hm)⟩
+
+-- "The credited account is the destination" for NFT / multi transfers: `C05.bounded_footprint` bounds the written accounts
+-- and the exact-effect theorems (C01 / C08) name the one written slot of the destination.
 
 end C09
